@@ -469,7 +469,7 @@ func formatDurationWebVTT(i time.Duration) string {
 // WriteToWebVTT writes subtitles in .vtt format
 func (s Subtitles) WriteToWebVTT(o io.Writer) (err error) {
 	// Do not write anything if no subtitles
-	if len(s.Items) == 0 {
+	if s.Items = nonNilItems(s.Items); len(s.Items) == 0 {
 		err = ErrNoSubtitlesToWrite
 		return
 	}
